@@ -769,6 +769,15 @@ func (u *Unit) store(st *State, pv Val, v Val, pos token.Pos) {
 			return
 		}
 		u.frameCheck(st, locs, pos)
+		if name := u.contract.Opts["no-direct-elem-writes"]; name != "" && p.Kind == PElem && len(st.frames) == 1 {
+			// frame: the elements of the named local slice are written only by the closures that
+			// own a slot (each under its own contract), never by this function directly
+			fr0 := st.frames[0]
+			env := &SpecEnv{vars: map[string]Val{}, fr: fr0, useLocals: true, fn: fr0.fn, pkg: u.pkgOf(fr0.fn)}
+			if lv, err := u.eval(st, env, &Spec{Kind: SIdent, Name: name}); err == nil && len(lv.Terms) == 4 {
+				u.oblige(st, "frame", "slot-owner", sNot(sEq(p.Ref, lv.Terms[0])), pos, "no direct write to an element of "+name+" (slots belong to the worker closures)", nil, u.contract.Where)
+			}
+		}
 		if fi := u.fieldInvFor(p); fi != nil {
 			t, err := u.evalBool(st, &SpecEnv{vars: map[string]Val{"val": v}, pkg: u.pkgOf(u.fn)}, fi.Expr)
 			if err != nil {
